@@ -55,7 +55,7 @@ def run(drv, shim, root, reporter, mode, fault=None, timeout=20, asan=True):
         env["UBSAN_OPTIONS"] = "halt_on_error=1:exitcode=99"
         env["VERIF_FAULT_LOG"] = os.path.join(d, "counts")
         if fault:
-            env["VERIF_FAULT"] = "%s:%d" % fault
+            env["VERIF_FAULT"] = "%s:%d" % fault[:2] + (":" + fault[2] if len(fault) > 2 and fault[2] else "")
         try:
             p = subprocess.run([drv, "case.scn"], cwd=d, env=env, stdout=subprocess.PIPE, stderr=subprocess.PIPE, timeout=timeout)
             rc, out, err = p.returncode, p.stdout.decode("latin-1"), p.stderr.decode("latin-1")
@@ -105,23 +105,34 @@ def check_C19(chk):
                     if label == "overflow":
                         ks = [1] if site in ("fork", "pipe", "fcntl") else [k for k in (1, 2) if k <= n] if site in ("write", "malloc_send") else []
                     for k in ks:
-                        jobs.append((label, root, rep, mode, site, k, False))
+                        jobs.append((label, root, rep, mode, site, k, False, ""))
                         if not site.startswith("malloc") and label != "overflow":
-                            jobs.append((label, root, rep, mode, site, k, True))      # again under ASan+UBSan
+                            jobs.append((label, root, rep, mode, site, k, True, ""))      # again under ASan+UBSan
+                        # other ways a transfer can fail: only part of the record goes through, other error codes
+                        if site in ("write", "read") and label != "overflow" and mode == "forked":
+                            if chk.tier == "thorough":
+                                hows = ["s%d" % n for n in range(1, 16)] + ["eEINTR", "eEPIPE", "eENOSPC"] + (["eEAGAIN"] if site == "write" else [])
+                            else:
+                                hows = ["s3", "s8", "s11", "eEINTR"] + (["eEAGAIN"] if site == "write" else []) if rep == "text" or k % 2 else ["s1", "s9", "s15"]
+                            for how in hows:
+                                jobs.append((label, root, rep, mode, site, k, False, how))
     with ThreadPoolExecutor(vlib.NPROC) as ex:
-        results = list(ex.map(lambda j: run(drv if j[6] else drv_plain, shim, j[1], j[2], j[3], fault=(j[4], j[5]), asan=j[6]), jobs))
-    for (label, root, rep, mode, site, k, san_build), (rc, out, err, counts, tdone) in zip(jobs, results):
-        chk.case((label, rep, mode, site, k, san_build))
-        chk.count("fault:%s" % site)
+        results = list(ex.map(lambda j: run(drv if j[6] else drv_plain, shim, j[1], j[2], j[3], fault=(j[4], j[5], j[7]), asan=j[6]), jobs))
+    for (label, root, rep, mode, site0, k, san_build, how), (rc, out, err, counts, tdone) in zip(jobs, results):
+        chk.case((label, rep, mode, site0, k, san_build, how))
+        site = site0 + (":" + how if how else "")
+        chk.count("fault:%s" % site0)
+        if how:
+            chk.count("fault-kind:%s" % ("short transfer" if how[0] == "s" else how[1:]))
         chk.count("build:%s" % ("asan" if san_build else "plain"))
         chk.count("mode:%s" % mode)
         chk.cov["disagreements_checked"] += 1
-        rp = {"scenario": L.scn_text(root, rep, mode, "events.log"), "fault": "%s:%d" % (site, k), "reporter": rep, "mode": mode,
+        rp = {"scenario": L.scn_text(root, rep, mode, "events.log"), "fault": "%s:%d%s" % (site0, k, ":" + how if how else ""), "reporter": rep, "mode": mode,
               "exit": rc, "stdout": out[-600:], "stderr": err[-400:],
-              "how": "VERIF_FAULT=%s:%d LD_PRELOAD=_work/bin-hooks/faultshim.so %s_work/bin-hooks/scn_driver <scenario file>" % (site, k, "CGREEN_NO_FORK=1 " if mode == "inproc" else "")}
+              "how": "VERIF_FAULT=%s:%d%s LD_PRELOAD=_work/bin-hooks/faultshim.so %s_work/bin-hooks/scn_driver <scenario file>" % (site0, k, ":" + how if how else "", "CGREEN_NO_FORK=1 " if mode == "inproc" else "")}
         fired = counts.get("fired", None)
         outcome = "hang" if rc is None else "success" if rc == 0 else "signal %d" % -rc if rc < 0 else "failure status %d" % rc
-        chk.count("outcome:%s:%s" % (site, "hang" if rc is None else "success" if rc == 0 else "killed" if rc < 0 else "failure"))
+        chk.count("outcome:%s:%s" % (site0, "hang" if rc is None else "success" if rc == 0 else "killed" if rc < 0 else "failure"))
         san = CC.asan_summary(err) or CC.asan_summary(out)
         if san:
             chk.violation("ub-%s" % site, "%s: after call %d of %s failed cgreen runs into undefined behaviour: %s (%s reporter, %s)" % (label, k, site, san, rep, mode), dict(rp, sanitizer=san))
@@ -144,7 +155,7 @@ def check_C19(chk):
                     chk.violation("xml-report-pass-%s" % site, "%s: call %d of %s fails; the run goes on and its XML report shows the failing test %s as a plain pass" % (label, k, site, name), rp)
         if rc == 0:
             chk.violation("success-%s" % site, "%s: the scenario contains a failing test, call %d of %s fails, and the run reports success (%s reporter, %s)" % (label, k, site, rep, mode), rp)
-        if not san_build and mode == "forked" and rep == "text" and site in ("write", "malloc_send") and label != "overflow":
+        if not san_build and not how and mode == "forked" and rep == "text" and site in ("write", "malloc_send") and label != "overflow":
             model_compare(chk, label, root, site, k, rc, tdone, rp)
         chk.sample({"scenario": label, "fault": "%s:%d" % (site, k), "reporter": rep, "mode": mode, "outcome": outcome}, limit=6)
     return chk.finish()
